@@ -61,7 +61,7 @@ type call struct {
 
 var callFns = []string{"HashToGroup", "EncodeToGroup", "HashToScalar", "E.Add", "E.Subtract", "E.Set", "E.Equal", "E.Multiply", "E.Decode", "E.DecodeUncompressed",
 	"S.Add", "S.Subtract", "S.Multiply", "S.Set", "S.Equal", "S.LessOrEqual", "S.Pow", "S.CSelect", "S.Decode", "Base", "NewElement", "Identity", "Order", "Random", "Base.Multiply", "E.DecodeHex", "S.DecodeHex", "E.DecodeHex-bad", "S.DecodeHex-bad",
-	"HashToGroup", "HashToScalar", "EncodeToGroup"}
+	"HashToGroup", "HashToScalar", "EncodeToGroup", "E.Decode-neg", "E.Decode", "Shared.observe", "Shared.observe", "Shared.S.observe"}
 
 type env struct {
 	E        []*secp256k1.Element
@@ -190,6 +190,37 @@ func (ev *env) run(c call) []byte {
 			return []byte("error:" + err.Error())
 		}
 		return e.Encode()
+	case "E.Decode-neg":
+		// the same abscissa with the other parity byte: concurrent decodings of P and -P
+		enc := append([]byte(nil), ev.encE[c.I%len(ev.encE)]...)
+		if len(enc) == 33 {
+			enc[0] ^= 1
+		}
+		if err := e.Decode(enc); err != nil {
+			return []byte("error:" + err.Error())
+		}
+		return e.Encode()
+	case "Shared.observe":
+		// the SHARED element is the receiver of read-only methods: many goroutines encode, copy, compare and print the same object
+		sh := ev.E[c.I%len(ev.E)]
+		out := append(sh.Encode(), sh.EncodeUncompressed()...)
+		out = append(out, sh.XCoordinate()...)
+		out = append(out, []byte(sh.Hex())...)
+		mb, _ := sh.MarshalBinary()
+		out = append(out, mb...)
+		out = append(out, sh.Copy().Encode()...)
+		out = append(out, byte(sh.Equal(ev.E[c.J%len(ev.E)])), byte(b2i(sh.IsIdentity())))
+		cp := *sh
+		return append(out, cp.Encode()...)
+	case "Shared.S.observe":
+		sh := ev.S[c.I%len(ev.S)]
+		out := append(sh.Encode(), []byte(sh.Hex())...)
+		bits := sh.Bits()
+		out = append(out, bits[:]...)
+		out = append(out, sh.Copy().Encode()...)
+		out = append(out, byte(sh.Equal(ev.S[c.J%len(ev.S)])), byte(sh.LessOrEqual(ev.S[c.J%len(ev.S)])), byte(b2i(sh.IsZero())))
+		cp := *sh
+		return append(out, cp.Encode()...)
 	case "E.DecodeUncompressed":
 		if err := e.Decode(ev.uncE[c.I%len(ev.uncE)]); err != nil {
 			return []byte("error:" + err.Error())
@@ -448,7 +479,7 @@ var c16 = gen.Register(&gen.Check[caseC16]{
 		}
 		all := caseC16{E: []pt.Spec{g, {Base: pt.Base{Kind: "kg", K: 3}, Steps: []pt.Step{{Op: "dblsub"}}}}, S: []string{"05", gen.H(new(bigInt).Sub(ref.N, one))}, Msg: "00", Dst: hex.EncodeToString(bytes.Repeat([]byte{'x'}, 32)), DstLay: gen.Layout{Post: 1}}
 		var ord []int
-		for i, fn := range callFns[:29] {
+		for i, fn := range append(append([]string{}, callFns[:29]...), "E.Decode-neg", "Shared.observe", "Shared.S.observe") {
 			all.Calls = append(all.Calls, call{Fn: fn, I: i % 2, J: (i + 1) % 2, Cond: uint64(i % 3)})
 			ord = append(ord, i)
 		}
@@ -465,6 +496,13 @@ var c16 = gen.Register(&gen.Check[caseC16]{
 				}
 			}
 		}
+		// P and -P decoded at the same time; one shared computed element (Z != 1) observed by everybody
+		out = append(out, caseC16{E: all.E, S: all.S, Msg: "00", Dst: all.Dst, Calls: []call{{Fn: "E.Decode", I: 1}, {Fn: "E.Decode-neg", I: 1}, {Fn: "E.DecodeHex", I: 1}},
+			Order: [][]int{{0, 1, 2}, {1, 0, 2}, {1, 2, 0}, {0, 2, 1}}, Rep: 300})
+		for rep := 0; rep < 3; rep++ {
+			out = append(out, caseC16{E: all.E, S: all.S, Msg: "00", Dst: all.Dst, Calls: []call{{Fn: "Shared.observe", I: 1, J: 0}, {Fn: "E.Add", I: 1}, {Fn: "E.Set", I: 1}, {Fn: "Shared.S.observe", I: 1}},
+				Order: [][]int{{0, 1, 2, 3}, {1, 0, 3, 2}, {0, 2, 1, 3}, {2, 0, 3, 1}, {0, 3, 1, 2}, {1, 2, 0, 3}}, Fan: 3})
+		}
 		// swarms: 400 goroutines x 8 multiplications / subtractions / hashes each (calls get preempted half-way, >128 in flight)
 		for _, fns := range [][]string{{"E.Multiply", "Base.Multiply"}, {"E.Subtract", "E.Add"}, {"HashToGroup", "HashToScalar"}, {"S.Pow", "S.Multiply"}} {
 			sw := caseC16{E: all.E, S: []string{gen.H(new(bigInt).Sub(ref.N, one)), "0123456789abcdef0123456789abcdef0123456789abcdef"}, Msg: "6d", Dst: all.Dst,
@@ -476,6 +514,13 @@ var c16 = gen.Register(&gen.Check[caseC16]{
 	Required: []string{"two-oversize-dsts", "shared-spare-capacity-dst", "goroutines>=2", "goroutines>128", "repeated-lists", "tail-writer", "call:HashToGroup", "call:HashToScalar", "call:E.Multiply"},
 	Run:      runC16,
 })
+
+func b2i(b bool) int {
+	if b {
+		return 1
+	}
+	return 0
+}
 
 func seq(n int) []int {
 	out := make([]int, n)
